@@ -68,13 +68,19 @@ def opDtw (j : Json) : Except String Json := do
   let r := s1.size / s.ndim
   let c := s2.size / s.ndim
   let engineC := getStrD j "engine" "py" == "c"
-  let g := if engineC then s.toGridC r c s1 s2 else s.toGridPy r c s1 s2
+  let g0 := if engineC then s.toGridC r c s1 s2 else s.toGridPy r c s1 s2
+  -- explicit point-cost table (user-supplied inner distance): cost i j = scale * costs[i*c + j]
+  let g : Grid Cost := match getNatArr j "costs" with
+    | .ok cs => { g0 with cost := fun i k => .fin (s.scale * cs.getD (i * c + k) 0) }
+    | .error _ => g0
   let ed : Cost := edSum g.cost r c
   let m : Cost := if getBoolD j "prune" false then ed else s.maxDist
   let mld := if engineC then s.mldC else s.mldPy
   let model := distModel g m mld
   let spec := dtwSpec g
-  let mut out : List (String × Json) := [("model", costJ model), ("spec", costJ spec), ("ed", costJ ed)]
+  let specFull := distSpec g mld
+  let mut out : List (String × Json) := [("model", costJ model), ("spec", costJ spec),
+    ("specFull", costJ specFull), ("ed", costJ ed)]
   if getBoolD j "wantMat" false then
     out := out ++ [("matP", rowsJ (matP g m r)), ("matU", rowsJ (matU g r))]
   return Json.mkObj out
